@@ -31,3 +31,39 @@ fn raw_instant_layout_matches_std() {
 pub(crate) fn le(a: (u64, u32), b: (u64, u32)) -> bool {
     a.0 < b.0 || (a.0 == b.0 && a.1 <= b.1)
 }
+
+// ---------------------------------------------------------------- shared key / value / hasher types
+use std::hash::Hasher;
+pub(crate) const MAXN: usize = 4; // residents <= 3, plus one newcomer
+pub(crate) const YEARS_1000: u64 = 1_000 * 365 * 24 * 3600;
+pub(crate) const W1: [[u32; MAXN]; 2] = [[1; MAXN]; 2];
+/// weight table with distinct non-unit weights: class 0 (residents) and class 1 (updates/newcomers)
+pub(crate) const WT_A: [[u32; MAXN]; 2] = [[3, 5, 2, 4], [7, 1, 6, 9]];
+/// zero weights and a heavy one
+pub(crate) const WT_Z: [[u32; MAXN]; 2] = [[0, 4, 0, 3], [5, 0, 4, 0]];
+
+pub(crate) trait HK: Hasher + Default + Clone {
+    fn h(k: u8) -> u64;
+}
+#[derive(Default, Clone)]
+pub(crate) struct IdH(u64);
+impl Hasher for IdH {
+    fn finish(&self) -> u64 { self.0 }
+    fn write(&mut self, b: &[u8]) { if !b.is_empty() { self.0 = b[0] as u64; } }
+    fn write_u8(&mut self, i: u8) { self.0 = i as u64; }
+}
+impl HK for IdH { fn h(k: u8) -> u64 { k as u64 } }
+/// every key collides
+#[derive(Default, Clone)]
+pub(crate) struct ConstH;
+impl Hasher for ConstH {
+    fn finish(&self) -> u64 { 0 }
+    fn write(&mut self, _b: &[u8]) {}
+}
+impl HK for ConstH { fn h(_k: u8) -> u64 { 0 } }
+
+// ---------------------------------------------------------------- value type
+/// `cls` selects the weight class (concrete where the shape needs concrete weights), `data` is payload.
+#[derive(Clone, Copy, PartialEq, Eq)]
+pub(crate) struct Val { pub cls: u8, pub data: u8 }
+
